@@ -372,7 +372,7 @@ impl IndexBlockCursor {
             FN: FnMut(&mut BlockCursor<Block>) -> Option<(&[u8], &[u8])>,
         {
             match blocks.split_last_mut() {
-                Some(((_offset, cursor), head)) => {
+                Some(((block_offset, cursor), head)) => {
                     match (mov)(cursor) {
                         Some((_key, _offset)) => Ok(cursor.current()),
                         None => {
@@ -387,6 +387,9 @@ impl IndexBlockCursor {
                                     reader.seek(SeekFrom::Start(offset))?;
                                     *cursor = Block::new(reader, compression_type)
                                         .map(Block::into_cursor)?;
+                                    // Keep the recorded offset in sync with the block we just
+                                    // loaded, absolute moves rely on it to skip reloading.
+                                    *block_offset = offset;
 
                                     // We return the result of the call has is. If it returns None
                                     // it means we are not able to execute the `mov` function.
